@@ -233,7 +233,8 @@ extern "C" void harness_treed_shape() {
   PolyTree64 t64; VA(c64.Execute(ClipType::Union, FillRule::EvenOdd, t64));
   VA(count_nodes64(t64) == count_nodesD(td));
   VA(t64.Count() == td.Count());
-  for (size_t i = 0; i < 4; ++i) { if (i >= t64.Count()) break; VA(t64[i]->Polygon().size() == td[i]->Polygon().size()); VA(t64[i]->Count() == td[i]->Count());
+  ASSUME(count_nodes64(t64) == count_nodesD(td) && t64.Count() == td.Count());     // (asserted above) do not index a tree of the wrong shape
+  for (size_t i = 0; i < 4; ++i) { if (i >= t64.Count()) break; VA(t64[i]->Polygon().size() == td[i]->Polygon().size()); VA(t64[i]->Count() == td[i]->Count()); ASSUME(t64[i]->Polygon().size() == td[i]->Polygon().size());
     for (size_t k = 0; k < 8; ++k) { if (k >= t64[i]->Polygon().size()) break; VA((double)t64[i]->Polygon()[k].x * 0.5 == td[i]->Polygon()[k].x && (double)t64[i]->Polygon()[k].y * 0.5 == td[i]->Polygon()[k].y); } }
   verif_reach();
 }
